@@ -614,6 +614,48 @@ def decimal_range_like(ctx, config, w):
     return stats
 
 
+class _RateProxy:
+    """Routes C13's named-intermediates obligations into C18 (the other rate rules are C13's own business)."""
+
+    def __init__(self, ctx):
+        self.real = ctx
+        self.n = 0
+        self.samples = []
+        self.extra = {}
+        self.configs = []
+        self.tier = ctx.tier
+        self.seed = ctx.seed
+
+    def ob(self, rule, instance, ok, detail="", where=None, nontrivial=True):
+        if rule == "rate-intermediates":
+            self.n += 1
+            self.real.ob("decimal-range-rate", instance, ok,
+                         detail + " — so the operation can overflow / lose all digits in the decimal back-end although every magnitude the property names is in range",
+                         where, nontrivial=False)
+        return ok
+
+    def fail(self, rule, instance, detail, where=None):
+        if rule.startswith("rate"):
+            self.real.fail("decimal-range-rate", instance, "rate operation not analysable: " + detail, where)
+
+    def sample(self, *a, **k):
+        pass
+
+    def floor(self, *a, **k):
+        pass
+
+
+def decimal_range_rate(ctx, config, w):
+    """Rate operations in the decimal back-end: every arithmetic node is one of the magnitudes the property names —
+    the divisor expressed in the dividend's unit (the like-quantity ratio), value / per value, the result — which lie
+    in the admissible range by the property's premise; the like-quantity division itself is decimal-range-like."""
+    from . import rules_c13
+    px = _RateProxy(ctx)
+    rules_c13.generic_rules(px, config, w.U)
+    rules_c13.per_type(px, config, w)
+    return px.n
+
+
 def run(ctx):
     total_bodies = 0
     for config in ("f64-all", "dec-all"):
@@ -642,6 +684,8 @@ def run(ctx):
             st = decimal_range(ctx, config, w)
             ctx.floor("%s: derived operators range-analysed" % config, st["impls"], 34 + 8)
             ctx.floor("%s: unit pairs range-analysed" % config, st["pairs"], 1500)
+            nr = decimal_range_rate(ctx, config, w)
+            ctx.floor("%s: rate operations with only named intermediates" % config, nr, 25)
             st2 = decimal_range_like(ctx, config, w)
             ctx.floor("%s: like-quantity (type, unit pair, operation) cases range-analysed" % config, st2["pairs"], 5000)
     ctx.floor("library bodies inventoried", total_bodies, 1000)
